@@ -39,6 +39,13 @@ func c14Pairs() []dutyPair {
 		{"double-vote-genesis", duty{e: Ent{S: 0, T: 0, Root: 1}}, duty{e: Ent{S: 0, T: 0, Root: 2}}},
 		{"double-vote-first-epoch", duty{e: Ent{S: 0, T: 1, Root: 1}}, duty{e: Ent{S: 0, T: 1, Root: 2}}},
 		{"double-proposal-slot-0", duty{prop: true, e: Ent{Slot: 0, Root: 1}}, duty{prop: true, e: Ent{Slot: 0, Root: 2}}},
+		// ... and at the highest: 2^63-1 is the largest value that can be recorded, 2^63 the first that cannot (whatever an
+		// instance signs it must be able to remember).
+		{"double-vote-top-epoch", duty{e: Ent{S: 1<<63 - 2, T: 1<<63 - 1, Root: 1}}, duty{e: Ent{S: 1<<63 - 2, T: 1<<63 - 1, Root: 2}}},
+		{"double-vote-beyond-top-epoch", duty{e: Ent{S: 1, T: 1 << 63, Root: 1}}, duty{e: Ent{S: 1, T: 1 << 63, Root: 2}}},
+		{"surround-from-beyond-top-epoch", duty{e: Ent{S: 1, T: 2, Root: 1}}, duty{e: Ent{S: 0, T: 1 << 63, Root: 1}}},
+		{"double-proposal-top-slot", duty{prop: true, e: Ent{Slot: 1<<63 - 1, Root: 1}}, duty{prop: true, e: Ent{Slot: 1<<63 - 1, Root: 2}}},
+		{"double-proposal-beyond-top-slot", duty{prop: true, e: Ent{Slot: 1 << 63, Root: 1}}, duty{prop: true, e: Ent{Slot: 1 << 63, Root: 2}}},
 	}
 }
 
